@@ -89,7 +89,7 @@ class Tx:
                 elif name in ("collections_all",):
                     pass
                 else:
-                    out.append(f"call {name}() (no effect contract: treated as may-raise)")
+                    out.append(f"call {name}() (no effect contract: may raise?)")
         return out
 
     def opens(self, st):
@@ -186,9 +186,13 @@ def transaction_obligations(rep):
         end_open = tx.run_block([s for s in tree.body if not (isinstance(s, ast.Expr) and isinstance(getattr(s, "value", None), ast.Constant))], None)
         label = f"{cls.__name__}.{name}{'.fset' if isinstance(member, property) else ''}"
         ok = not tx.problems
-        rep.obligation(f"{label}.no-raise-while-a-tree-transaction-is-open", {"status": "discharged" if ok else "refuted", "backend": f"ast-effect-analysis({tx.nodes} statements)", "time_s": 0},
+        # a call without an effect contract (a helper added by a refactoring) is neither known to raise nor known not to: undecided, not a violation
+        only_unknown = bool(tx.problems) and all("no effect contract" in p_[1] for p_ in tx.problems)
+        st_ = "discharged" if ok else ("unknown" if only_unknown else "refuted")
+        rep.obligation(f"{label}.no-raise-while-a-tree-transaction-is-open", {"status": st_, "backend": f"ast-effect-analysis({tx.nodes} statements)", "time_s": 0,
+                                                                              "reason": "; ".join(f"`{p_[2]}`: {p_[1]}" for p_ in tx.problems[:3])},
                        d["function"], "exceptional", sample={"assumed_no_raise_call_sites": sorted(tx.assumed)} if name == "add" else None)
-        if not ok:
+        if not ok and not only_unknown:
             o, r, where = tx.problems[0]
             fails.append(dict(name=f"{label}.no-raise-while-a-tree-transaction-is-open", method=name,
                               why=f"after the write `{o}` the statement `{where}` may raise ({r}) before the tree is consistent again"))
